@@ -115,6 +115,14 @@ def rule_pair(ctx, tu, R="C02.PAIR"):
             flags = {t for t, pol in u.facts if isinstance(t, str) and t.startswith("mesh_chstt[")}
             ctx.check(flags == {"mesh_chstt[%r]" % u.index}, R, u.node, q, "%s half guarded by %s" % (nm, sorted(flags)),
                       "only by the chemostat flag of its own entry", "the %s half is guarded by %s" % (nm, sorted(flags)))
+        # ... and by nothing else: every other condition (loop bounds, neighbour present, count non-zero) holds for both halves or
+        # for neither.  A test that stands between them skips the addition after the removal was made
+        own = lambda u_: {(t, pol) for t, pol in u_.facts if isinstance(t, str) and not t.startswith("mesh_chstt[")}
+        em, ep = own(m), own(p)
+        diff_ = sorted(str(t) for t, _ in (em ^ ep))
+        ctx.check(not diff_, R, p.node, q, "both halves of a move under the same conditions (own chemostat flag aside)",
+                  "removal and addition happen together", "the two halves of a move stand under different conditions (`%s` holds "
+                  "for one of them only): molecules are removed without being added, or the reverse" % (diff_[0] if diff_ else ""))
     ctx.floor(R, 4 * 5)
 
 
